@@ -135,6 +135,11 @@ def gen_txns(r, cfg, targets, force_desc_time=None):
         txns[i]["commit_seq_override"] = True
         note = "commit of txn %d missing (later ones present)" % txns[i]["seq"]
         txns[i]["commit"]["missing"] = True
+    elif len(txns) >= 2 and k < 0.66 and (cfg.csum or cfg.v1):
+        # a commit block in the middle of the log fails its checksum: the log ends there, also under ASYNC_COMMIT
+        i = r.randrange(len(txns) - 1)
+        txns[i]["commit"]["bad_csum"] = True
+        note = "commit csum bad in the middle of the log"
     return txns, note
 
 
@@ -208,6 +213,8 @@ def one_case(src, mexe, idx, seed, tier):
     inc = {"none": 0, "v2": INCOMPAT_CSUM2, "v3": INCOMPAT_CSUM3, "v1": V1_CHECKSUM}[mode]
     if r.random() < 0.5:
         inc |= INCOMPAT_64BIT
+    if mode != "none" and r.random() < 0.3:
+        inc |= INCOMPAT_ASYNC            # a failed commit checksum still ends the log, the scan only goes on looking
     jlen = jimg.maxlen - jimg.first
     k = r.random()
     start_rel = 0 if k < 0.3 else (jlen - r.randint(1, 12) if k < 0.7 else r.randint(0, jlen - 1))
@@ -215,6 +222,18 @@ def one_case(src, mexe, idx, seed, tier):
     targets = jimg.free_blocks(r.randint(2, 9), r)
     tmp_cfg = Cfg(jimg.bs, jimg.first, jimg.maxlen, jimg.uuid, inc, seq0, start_rel)
     txns, note = gen_txns(r, tmp_cfg, targets, force)
+    if idx in (12, 13, 14):
+        # directed: the transaction ids wrap around 2^32 between the logging of a block and its revocation
+        seq0 = [0xFFFFFFFE, 0xFFFFFFFF, 0xFFFFFFFD][idx - 12]
+        tmp_cfg = Cfg(jimg.bs, jimg.first, jimg.maxlen, jimg.uuid, inc, seq0, start_rel)
+        B = (targets * 4)[:4]
+        mk = lambda blk, tag: {"blk": blk, "data": (bytes([tag]) * 16 + struct.pack(">II", tag, blk)).ljust(jimg.bs, bytes([tag]))}
+        txns, t0 = [], 1700000000
+        plan = [[("D", [mk(B[0], 0x41), mk(B[1], 0x42)])], [("D", [mk(B[1], 0x43), mk(B[2], 0x44)])], [("R", [B[1], B[2]]), ("D", [mk(B[3], 0x45)])],
+                [("D", [mk(B[2], 0x46)])], [("R", [B[0]])]]
+        for j, items in enumerate(plan):
+            txns.append({"seq": (seq0 + j) & 0xFFFFFFFF, "items": items, "commit": {"time": t0 + j}})
+        note = "clean; transaction ids wrap around 2^32 between log and revoke"
     # half of the logs that have one: the end of the log area falls between the data blocks of one descriptor
     # (every pass, and the v1 checksum accumulation, has to wrap its position per block, not per descriptor)
     straddle = []
@@ -230,7 +249,7 @@ def one_case(src, mexe, idx, seed, tier):
         start_rel = (jlen - (d_off + 1 + r.randint(1, ntag - 1))) % jlen
         tmp_cfg = Cfg(jimg.bs, jimg.first, jimg.maxlen, jimg.uuid, inc, seq0, start_rel)
         note += " in txn; data blocks of one descriptor straddle the log end"
-    recipe = {"base": name, "mke2fs": opts, "journal": {"csum": mode, "64bit": bool(inc & INCOMPAT_64BIT), "start_rel": start_rel, "len": jlen, "seq0": seq0},
+    recipe = {"base": name, "mke2fs": opts, "journal": {"csum": mode, "64bit": bool(inc & INCOMPAT_64BIT), "async_commit": bool(inc & INCOMPAT_ASYNC), "start_rel": start_rel, "len": jlen, "seq0": seq0},
               "note": note, "txns": [{"seq": x["seq"], "items": [(k2, [t["blk"] for t in p] if k2 == "D" else p) for k2, p in x["items"]],
                                       "commit": x.get("commit")} for x in txns]}
     a = os.path.join(WORK, "case_%d_a.img" % (idx % 64))
@@ -242,7 +261,7 @@ def one_case(src, mexe, idx, seed, tier):
     rca, outa = e2v.sh([os.path.join(src, "e2fsck/e2fsck"), "-fy", "-E", "journal_only", a], env=env, timeout=120)
     rcb, outb = e2v.sh([os.path.join(src, "debugfs/debugfs"), "-w", "-R", "jr", b], env=env, timeout=120)
     oa, ob = observe(a, jimg, targets), observe(b, jimg, targets)
-    verdict, mblocks = model_run(mexe, cfg, views, False, targets)
+    verdict, mblocks = model_run(mexe, cfg, views, bool(inc & INCOMPAT_ASYNC), targets)
     problems = []
     if rca == -9 or rcb == -9:
         problems.append("tool timed out (rc e2fsck %s, debugfs %s)" % (rca, rcb))
@@ -298,7 +317,7 @@ def run(res, replay=None):
         "the byte-level decoding done by recovery.c (count_tags, tag walk, checksum verification) is exercised by correspondence, not modelled",
         "tid identifiers within one log span less than 2^31 (hypothesis of the tid theorems)",
     ]
-    res.cov["partial"] = ["fast-commit replay, async-commit logs and external journals are not generated",
+    res.cov["partial"] = ["fast-commit replay and external journals are not generated",
                           "PASS_SCAN of the pinned code does not terminate on a cyclic all-descriptor log (C06 finding); the model uses fuel and the theorem excludes the out-of-fuel case"]
     n = 60 if tier == "quick" else 3000
     if replay:
